@@ -83,6 +83,11 @@ func c10Pool(i, token int) common.Address {
 
 const c10PoolSize = 9
 
+var c10BoundaryAmounts = []string{"127", "128", "255", "256", "257", "65535", "65536", "16777215", "4294967295", "4294967296", "18446744073709551615", "18446744073709551616",
+	"340282366920938463463374607431768211455", "340282366920938463463374607431768211456",
+	"57896044618658097711785492504343953926634992332820282019728792003956564819967", "57896044618658097711785492504343953926634992332820282019728792003956564819968",
+	"115792089237316195423570985008687907853269984665640564039457584007913129639934"}
+
 func forwarderCode(target common.Address) string {
 	a := evmgen.NewAsm()
 	a.Op(evmgen.CALLDATASIZE).PushU(0).PushU(0).Op(evmgen.CALLDATACOPY)
@@ -137,6 +142,10 @@ func genC10(t *rapid.T) c10Case {
 			}
 			if s.Amt == "0" && rapid.Bool().Draw(t, "nonzeroapprove") {
 				s.Amt = fmt.Sprintf("%d", rapid.Uint64Range(1, 5000).Draw(t, "approveamt"))
+			}
+			if rapid.IntRange(0, 3).Draw(t, "approveboundary") == 0 {
+				// values at the edges of the byte lengths an encoding of the allowance may switch at
+				s.Amt = rapid.SampledFrom(c10BoundaryAmounts).Draw(t, "approveboundaryamt")
 			}
 		case "transferFrom", "burnFrom":
 			if len(approved) > 0 && rapid.IntRange(0, 3).Draw(t, "usepair") != 0 {
